@@ -393,6 +393,11 @@ def r02_5(ctx):
 def run(ctx):
     from .sweep import r02_9 as _r02_9
     _r02_9(ctx)
+    # a result is handed to its handle whatever the per-worker tables hold (borrowed from C01): a KeyError between the
+    # cache lookup and _set throws the value away
+    from .c01 import r01_4 as _r01_4b
+    from ..report import Only as _OnlyS2
+    _r01_4b(_OnlyS2(ctx, ('on_ready:on_ready_counters-lookup-cannot-raise-into-the-dispatcher',), floor=1, doc='no table lookup in on_ready can raise into the dispatcher before the result reached its handle'))
     r02_1(ctx)
     r02_2(ctx)
     r02_3(ctx)
@@ -412,6 +417,8 @@ def run(ctx):
 
 _P = 'billiard/pool.py'
 MUTANTS = [
+    ('map-parts-not-counted', 'billiard/pool.py', '                self._number_left -= 1\n', '', 'R02.9'),
+    ('map-ready-after-the-first-part', 'billiard/pool.py', '                if self._number_left == 0:\n                    if self._callback:\n', '                if self._number_left >= 0:\n                    if self._callback:\n', 'R02.9'),
     ('reorder-buffer-shared-by-all-iterators', _P,
      "    _worker_lost = None\n\n    def __init__(self, cache, lost_worker_timeout=LOST_WORKER_TIMEOUT):\n        self._cond = threading.Condition(threading.Lock())\n        self._job = next(job_counter)\n        self._cache = cache\n        self._items = deque()\n        self._index = 0\n        self._length = None\n        self._ready = False\n        self._unsorted = {}\n",
      "    _worker_lost = None\n    _unsorted = {}\n\n    def __init__(self, cache, lost_worker_timeout=LOST_WORKER_TIMEOUT):\n        self._cond = threading.Condition(threading.Lock())\n        self._job = next(job_counter)\n        self._cache = cache\n        self._items = deque()\n        self._index = 0\n        self._length = None\n        self._ready = False\n", 'R02.7'),
